@@ -65,6 +65,9 @@ JPairs(n) == SetToSeq(Ser(n) \X Ser(n))
 J == UNION {{LET pr == JPairs(n)[k]  h == HashS(pr[1]) + 7 * HashS(pr[2]) + lag IN
               [kind |-> "j", x |-> pr[1], y |-> pr[2], lag |-> lag,
                mx |-> Metrics[(h % 3) + 1], my |-> Metrics[((h \div 3) % 3) + 1],
+               \* embedding dimensions of the two series (delay 1): only with two components do the metrics differ
+               dx |-> IF n - Abs(lag) >= 2 /\ (h \div 27) % 2 = 1 THEN 2 ELSE 1,
+               dy |-> IF n - Abs(lag) >= 2 /\ (h \div 54) % 3 >= 1 THEN 2 ELSE 1,
                mode |-> IF (h \div 9) % 3 = 2 THEN "rr" ELSE "thr",
                p1n |-> IF (h \div 9) % 3 = 2 THEN 1 + (h % 3) ELSE 1 + (h % 3),
                p1d |-> IF (h \div 9) % 3 = 2 THEN 4 ELSE 2,
